@@ -19,7 +19,6 @@ Qed.
 Section Step.
   Variable S : Z -> Z.
   Variable F : option Z.
-  Hypothesis F_nonneg : forall f, F = Some f -> 0 <= f.
 
   Lemma rx_synced_mono (have have' : Z -> Prop) irs c s :
     (forall k, have k -> have' k) -> rx_synced S F have irs c s -> rx_synced S F have' irs c s.
@@ -65,13 +64,15 @@ Section Step.
     rx_synced S F have irs c s -> seg_ok S F c s r ->
     tcp_process cx s ip r = Ok (s', rep, tags) ->
     reply_ok s' rep /\
-    (rx_synced S F (have_seg have c s r) irs c s' \/ (rx_unsynced s' /\ s_state s' = Listen)) /\
+    (rx_synced S F (have_seg have c s r) irs c s' \/
+     (rx_unsynced s' /\ s_state s' = Listen /\ rep = None)) /\
     beyond_untouched s' s.
   Proof.
     intros Hinv Hseg H.
     assert (Hmono : forall k, have k -> have_seg have c s r k) by (intros k Hk; left; exact Hk).
     assert (Hret : forall s1 rp, same_or_acked s1 s rp ->
-              reply_ok s1 rp /\ (rx_synced S F (have_seg have c s r) irs c s1 \/ (rx_unsynced s1 /\ s_state s1 = Listen)) /\
+              reply_ok s1 rp /\ (rx_synced S F (have_seg have c s r) irs c s1 \/
+                                  (rx_unsynced s1 /\ s_state s1 = Listen /\ rp = None)) /\
               beyond_untouched s1 s).
     { intros s1 rp Hsa. destruct (same_or_acked_synced have irs c s1 s rp Hsa Hinv) as (H1 & H2).
       split; [exact H2|]. split; [left; eapply rx_synced_mono; eassumption|].
@@ -136,7 +137,7 @@ Section Step.
           destruct Hstate as [Hcl | (Hli & Hsr)].
           + left. eapply rx_synced_mono; [exact Hmono|].
             eapply rx_synced_view; [exact He' | unfold st_ok; rewrite Hcl; exact I | exact Hinv].
-          + right. split; [|exact Hli].
+          + right. split; [|split; [exact Hli | reflexivity]].
             destruct Hf2 as (_ & Hst2). rewrite Hst2 in Hsr. unfold st_ok in Hsto. rewrite Hsr in Hsto.
             destruct Hsto as (Hl0 & Ha0 & Hf0 & _).
             destruct He' as (E1 & E2 & E3 & E4 & E5 & E6 & E7).
